@@ -92,7 +92,8 @@ RECURSIVE BoolChain(_, _, _, _, _)
 FilterFrom(s, p, i) ==
   IF i > Len(s) THEN <<>>
   ELSE LET rest == FilterFrom(s, p, i + 1) IN
-       IF Bad(p[i]) THEN <<p[i]>> \o rest
+       IF StrictBad(s[i]) THEN <<s[i]>> \o rest
+       ELSE IF Bad(p[i]) THEN <<Strict(p[i])>> \o rest
        ELSE IF Truth(p[i]) THEN <<s[i]>> \o rest ELSE rest
 
 \* concatenate a sequence of seq values; a bad inner sequence stays as one bad element
@@ -144,16 +145,19 @@ Denote(q, env, ev) ==
          LET s == Denote(q.ch[1], env, ev) IN
          IF Bad(s) THEN s
          \* parameters are bound by need: a bad element only matters if the body uses it
-         ELSE SeqV([i \in 1..Len(s.v) |-> Denote(q.ch[2], Bind(env, q.a, s.v[i]), ev)])
+         ELSE SeqV([i \in 1..Len(s.v) |-> IF StrictBad(s.v[i]) THEN s.v[i]
+                                            ELSE Denote(q.ch[2], Bind(env, q.a, s.v[i]), ev)])
     [] q.k = "Where" ->
          LET s == Denote(q.ch[1], env, ev) IN
          IF Bad(s) THEN s
-         ELSE LET p == [i \in 1..Len(s.v) |-> Denote(q.ch[2], Bind(env, q.a, s.v[i]), ev)]
+         ELSE LET p == [i \in 1..Len(s.v) |-> IF StrictBad(s.v[i]) THEN s.v[i]
+                                               ELSE Denote(q.ch[2], Bind(env, q.a, s.v[i]), ev)]
               IN SeqV(FilterFrom(s.v, p, 1))
     [] q.k = "SelectMany" ->
          LET s == Denote(q.ch[1], env, ev) IN
          IF Bad(s) THEN s
-         ELSE SeqV(FlattenFrom([i \in 1..Len(s.v) |-> Denote(q.ch[2], Bind(env, q.a, s.v[i]), ev)], 1))
+         ELSE SeqV(FlattenFrom([i \in 1..Len(s.v) |-> IF StrictBad(s.v[i]) THEN s.v[i]
+                                                        ELSE Denote(q.ch[2], Bind(env, q.a, s.v[i]), ev)], 1))
     [] q.k = "First" ->
          LET s == Denote(q.ch[1], env, ev) IN
          IF Bad(s) THEN s
@@ -165,6 +169,9 @@ Denote(q, env, ev) ==
     [] q.k = "Count" ->
          LET s == Denote(q.ch[1], env, ev) IN
          IF Bad(s) THEN s
+         \* an element whose existence is undecided makes the count itself bad; a bad element
+         \* VALUE need not be looked at by Count (whether it is, the properties do not say)
+         ELSE IF \E i \in DOMAIN s.v : StrictBad(s.v[i]) THEN FirstBad(SelectSeq(s.v, StrictBad))
          ELSE IF AnyBad(s.v) THEN (IF \E i \in DOMAIN s.v : IsUndef(s.v[i]) THEN FirstBad(s.v)
                                    ELSE Undef("lazy_count"))
          ELSE Num("int", Len(s.v), 1)
